@@ -26,3 +26,15 @@ TEXT = dict(
     text='Theorems: C16_agree (whenever the full decoder model, checksum ignored, accepts a stream — all Decodes succeed and the loop ends at a clean end of stream — the raw decoder model accepts it, consumes all of it, reports the same number of sequences and the same ordered series of definitions (header byte, architecture, global number, field and developer field definitions) and data messages (header byte); by simulation: both consume the same bytes per record whatever the field sizes), C16_concat (for every stream and callback: concatenated segments = the first bytes of the stream, ≤ n ≤ length; = exactly the n consumed bytes on success), C16_lengths (every segment has the FitFormat-prescribed length given the preceding definitions; data records always have a live definition; definitions do not survive a sequence). Tie: family raw (ops raw: real RawDecoder vs model incl. fragmenting/failing readers and failing callbacks, --spec: FitFormat segmentation on every well-framed stream; ops rawdec: real RawDecoder vs real Decoder with mesg-def and mesg listeners, --prop: same number of sequences, same ordered series of definitions and data messages whenever the full decoder accepts).',
     note='Proved about the model; tied by differential testing.',
 )
+
+# --- tie by translation (translators/go2lean, notes/go2lean.md; agreement theorems in lean/FitProps/C16Go2Lean.lean).
+# Kept as a separate block so that it never collides with edits of the dictionary above.
+PROP['regen'] = PROP['regen'] + ['go2lean:proto']
+PROP['go2lean_diff'] = ['Proto']      # lean/Go2LeanDiff/<Topic>.lean: search for a differing argument when an agreement theorem breaks
+PROP['theorems'] = PROP['theorems'] + [
+    'Fit.C16.C16_go2lean_localMesgNum',
+    'Fit.C16.C16_go2lean_localMesgNum_lt',
+    'Fit.C16.C16_go2lean_masks_reader',
+    'Fit.C16.C16_go2lean_masks_format']
+PROP['trusted_base'] = PROP['trusted_base'] + [
+    "translators/go2lean (Go→Lean for a small subset of Go, notes/go2lean.md) re-translates proto.LocalMesgNum and the header masks of proto/proto.go from the current source on every run; the agreement theorems *_go2lean_* state that the translated functions equal the hand-written model functions for all arguments; trusted: the translator's rendering of the subset (go/types computes constants and types) and FitModel/GoPrelude.lean"]
